@@ -187,7 +187,8 @@ pub fn run_ew(cfg: &EwCfg, script: &[EwOp], env: &EwEnv, ch: &mut Chooser) -> Ew
     let mut done_ops: Vec<bool> = vec![false; script.len()];
     let mut blackout: Option<(usize, u8)> = None;
     if !env.blackouts.is_empty() {
-        let k = ch.choose(env.blackouts.len() * env.dev_rounds + 1);
+        let n = env.blackouts.len() * env.dev_rounds;
+        let k = if n + 1 <= 255 { ch.choose(n + 1) } else { let b = ch.choose(env.blackouts.len() + 1); if b == 0 { 0 } else { 1 + ch.free(env.dev_rounds) * env.blackouts.len() + (b - 1) } };
         if k > 0 { let k = k - 1; blackout = Some((env.dev_start + k / env.blackouts.len(), env.blackouts[k % env.blackouts.len()])); }
     }
     tr.blackout = blackout;
